@@ -90,6 +90,20 @@ Section Dec.
     | None => Panic P_ILLTYPED
     end.
 
+  (** fields in declaration order; a skipped field is its [Default] and reads nothing *)
+  Section DecFields. Variable f : ty -> St -> result (val * St).
+    Fixpoint dec_fields (ts : list ty) (sk : list bool) (s : St) : result (list val * St) :=
+      match ts with
+      | [] => Ok ([], s)
+      | t' :: tr =>
+          let sb := match sk with b :: _ => b | [] => false end in
+          let sr := match sk with _ :: r => r | [] => [] end in
+          '(v, s1) <- (if sb then Ok (default_of t', s) else f t' s) ;;
+          '(r, s2) <- dec_fields tr sr s1 ;;
+          Ok (v :: r, s2)
+      end.
+  End DecFields.
+
   Fixpoint dec (t : ty) {struct t} : St -> result (val * St) :=
     match t with
     | TPrim p => fun s =>
@@ -117,28 +131,14 @@ Section Dec.
         if is_u8 t' then '(b, s') <- read_mapped n s ;; Ok (VL (of_bytes b), s')
         else '(l, s') <- repeat_dec (dec t') n s ;; Ok (VL l, s')
     | TProd k ts => fun s =>
-        '(l, s') <- (fix go (ts : list ty) (sk : list bool) (s : St) : result (list val * St) :=
-                       match ts, sk with
-                       | [], _ => Ok ([], s)
-                       | t' :: tr, sk0 =>
-                           let sb := match sk0 with b :: _ => b | [] => false end in
-                           let sr := match sk0 with _ :: r => r | [] => [] end in
-                           '(v, s1) <- (if sb then Ok (default_of t', s) else dec t' s) ;;
-                           '(r, s2) <- go tr sr s1 ;;
-                           Ok (v :: r, s2)
-                       end) ts (prod_skips k (length ts)) s ;;
+        '(l, s') <- dec_fields (fun t' s => dec t' s) ts (prod_skips k (length ts)) s ;;
         Ok (VL l, s')
     | TSum k vs => fun s =>
         '(b, s1) <- read_u8 s ;;
         match find_tag (sum_tags k) b 0 with
         | None => Err InvalidData (bad_tag k b)
         | Some i =>
-            '(v, s2) <- (fix pick (vs : list ty) (n : nat) : result (val * St) :=
-                           match vs, n with
-                           | t' :: _, O => dec t' s1
-                           | _ :: r, S n' => pick r n'
-                           | [], _ => Err InvalidData (bad_tag k b)
-                           end) vs (N.to_nat i) ;;
+            '(v, s2) <- nth_or (fun t' => dec t' s1) (Err InvalidData (bad_tag k b)) vs (N.to_nat i) ;;
             Ok (VV i v, s2)
         end
     | TWrap _ t' => dec t'
